@@ -163,6 +163,8 @@ type Real struct {
 	Root    datamodel.Node
 	Loads   *[]string // binary CIDs in the order the storage was asked for them
 	NBlocks int
+	// BlockKinds: kind of the root of each block, by the binary form of its (dag-cbor) link
+	BlockKinds map[string]val.Kind
 }
 
 // Realise stores every block through a real LinkSystem (checking that the link it returns is
@@ -172,6 +174,7 @@ func Realise(g Graph, np datamodel.NodePrototype) (*Real, error) {
 	mem := &memstore.Store{Bag: map[string][]byte{}}
 	lsys.SetWriteStorage(mem)
 	var loads []string
+	kinds := map[string]val.Kind{}
 	lsys.StorageReadOpener = func(lctx linking.LinkContext, l datamodel.Link) (io.Reader, error) {
 		loads = append(loads, l.Binary())
 		return mem.GetStream(lctx.Ctx, l.Binary())
@@ -190,6 +193,7 @@ func Realise(g Graph, np datamodel.NodePrototype) (*Real, error) {
 		}
 		// the same bytes under the raw-codec address
 		mem.Bag[RawCidOf(b)] = mem.Bag[l.Binary()]
+		kinds[l.Binary()] = b.K
 	}
 	if np == nil && g.RootImpl != "" {
 		np = nodes.ProtoFor(nodes.Impl(g.RootImpl), g.Root.K)
@@ -201,7 +205,7 @@ func Realise(g Graph, np datamodel.NodePrototype) (*Real, error) {
 	if err != nil {
 		return nil, err
 	}
-	return &Real{LSys: lsys, Mem: mem, Root: root, Loads: &loads, NBlocks: len(g.Blocks)}, nil
+	return &Real{LSys: lsys, Mem: mem, Root: root, Loads: &loads, NBlocks: len(g.Blocks), BlockKinds: kinds}, nil
 }
 
 // Seg resolves one path segment on an abstract value, the way the data model defines it:
